@@ -82,6 +82,11 @@ func Minimise(p *Program, still func(*Program) bool, budget int) (*Program, int)
 			c.Epochs = append(c.Epochs[:ei], c.Epochs[ei+1:]...)
 			try(c)
 		}
+		if cur.ClockSeed != 0 {
+			c := cur.Clone()
+			c.ClockSeed = 0
+			try(c)
+		}
 		// schedule: drop everything, then pieces
 		{
 			c := cur.Clone()
